@@ -66,6 +66,7 @@ struct Params {
     long long stopAfterPolls = -1;       // counting stop handler (-1: none)
     std::vector<U64> history;            // zobrist hashes of earlier positions (repetition list)
     bool nextGeneration = true;
+    int minTimeMs = -1, maxTimeMs = -1;  // Search::timeLimit (real milliseconds; -1 = none)
 };
 
 struct Outcome {
@@ -101,7 +102,7 @@ inline Outcome run(Env& env, const Position& pos, const Params& p) {
     MoveGen::removeIllegal(pos2, moves);
     if (!p.searchMoves.empty()) moves.filter(p.searchMoves);
     out.rootMoves = moves.size;
-    sc.timeLimit(-1, -1);
+    sc.timeLimit(p.minTimeMs, p.maxTimeMs);
     sc.setWhiteContempt(p.whiteContempt);
     if (p.nextGeneration) env.tt.nextGeneration();
     out.best = sc.iterativeDeepening(moves, p.maxDepth, p.maxNodes, p.maxPV, false, p.minProbeDepth, p.clearHistory);
